@@ -42,39 +42,37 @@ pub mod life {
         }
         let mut t0: ManuallyDrop<Option<L::Tx>> = ManuallyDrop::new(Some(tx));
         let mut t1: ManuallyDrop<Option<L::Tx>> = ManuallyDrop::new(None);
-        let mut t2: ManuallyDrop<Option<L::Tx>> = ManuallyDrop::new(None);
         let mut r0: ManuallyDrop<Option<L::Rx>> = ManuallyDrop::new(Some(rx));
         let mut r1: ManuallyDrop<Option<L::Rx>> = ManuallyDrop::new(None);
-        let mut r2: ManuallyDrop<Option<L::Rx>> = ManuallyDrop::new(None);
-        let mut ta = [true, false, false];
-        let mut ra = [true, false, false];
+        let mut ta = [true, false];
+        let mut ra = [true, false];
         let mut closed = false;
         let mut bits = 0u32;
         let mut step = 0;
         while step < n && !s.exhausted() && !closed {
             step += 1;
             let op = s.below(4);
-            let j = s.below(3) as usize;
-            let ntx = ta[0] as u8 + ta[1] as u8 + ta[2] as u8;
-            let nrx = ra[0] as u8 + ra[1] as u8 + ra[2] as u8;
+            let j = s.below(2) as usize;
+            let ntx = ta[0] as u8 + ta[1] as u8;
+            let nrx = ra[0] as u8 + ra[1] as u8;
             if op == 0 {
                 // clone a sender handle into the free slot j from the lowest live one
                 s.assume(L::TX_CLONE && !ta[j] && ntx > 0);
-                let src = if ta[0] { &t0 } else if ta[1] { &t1 } else { &t2 };
+                let src = if ta[0] { &t0 } else { &t1 };
                 let c = L::clone_tx((**src).as_ref().unwrap());
-                let dst = match j { 0 => &mut t0, 1 => &mut t1, _ => &mut t2 };
+                let dst = match j { 0 => &mut t0, _ => &mut t1 };
                 unsafe { core::ptr::write(&mut **dst, Some(c)) };
                 ta[j] = true;
             } else if op == 1 {
                 s.assume(L::RX_CLONE && !ra[j] && nrx > 0);
-                let src = if ra[0] { &r0 } else if ra[1] { &r1 } else { &r2 };
+                let src = if ra[0] { &r0 } else { &r1 };
                 let c = L::clone_rx((**src).as_ref().unwrap());
-                let dst = match j { 0 => &mut r0, 1 => &mut r1, _ => &mut r2 };
+                let dst = match j { 0 => &mut r0, _ => &mut r1 };
                 unsafe { core::ptr::write(&mut **dst, Some(c)) };
                 ra[j] = true;
             } else if op == 2 {
                 s.assume(ta[j]);
-                let slot = match j { 0 => &mut t0, 1 => &mut t1, _ => &mut t2 };
+                let slot = match j { 0 => &mut t0, _ => &mut t1 };
                 let h = unsafe { core::ptr::read(&**slot) };
                 unsafe { core::ptr::write(&mut **slot, None) };
                 drop(h); // the real Drop of the sender handle
@@ -82,14 +80,14 @@ pub mod life {
                 if ntx > 1 { bits |= W_DROP_NONLAST_TX; } else if step > 1 { bits |= W_CLOSED_BY_LAST; }
             } else {
                 s.assume(ra[j]);
-                let slot = match j { 0 => &mut r0, 1 => &mut r1, _ => &mut r2 };
+                let slot = match j { 0 => &mut r0, _ => &mut r1 };
                 let h = unsafe { core::ptr::read(&**slot) };
                 unsafe { core::ptr::write(&mut **slot, None) };
                 drop(h);
                 ra[j] = false;
                 if nrx > 1 { bits |= W_DROP_NONLAST_RX; } else if step > 1 { bits |= W_CLOSED_BY_LAST; }
             }
-            let expect_closed = !(ta[0] || ta[1] || ta[2]) || !(ra[0] || ra[1] || ra[2]);
+            let expect_closed = !(ta[0] || ta[1]) || !(ra[0] || ra[1]);
             // observe: woken <=> closed; a re-poll completes with None <=> closed
             if (p & P11) != 0 {
                 assert!((cell.n() > 0) == expect_closed,
@@ -217,14 +215,14 @@ pub mod life {
 
         #[kani::proof]
         #[kani::unwind(6)]
-        fn life_witness_oneshot_bc_n4() {
-            let bits = hist::<OneshotBc<NL>, _>(&mut KaniSrc, 4, 0);
+        fn life_witness_oneshot_bc_n3() {
+            let bits = hist::<OneshotBc<NL>, _>(&mut KaniSrc, 3, 0);
             assert!(bits & (W_DROP_NONLAST_RX | W_CLOSED_BY_LAST) != (W_DROP_NONLAST_RX | W_CLOSED_BY_LAST), "WITNESS reached");
         }
         #[kani::proof]
         #[kani::unwind(6)]
-        fn life_witness_mpmc_n4() {
-            let bits = hist::<Mpmc<NL>, _>(&mut KaniSrc, 4, 0);
+        fn life_witness_mpmc_n3() {
+            let bits = hist::<Mpmc<NL>, _>(&mut KaniSrc, 3, 0);
             assert!(bits & (W_DROP_NONLAST_TX | W_CLOSED_BY_LAST) != (W_DROP_NONLAST_TX | W_CLOSED_BY_LAST), "WITNESS reached");
         }
     }
